@@ -46,7 +46,8 @@ pub fn replay(run: &mut Runner, path: &str) {
             m.insert("verdict".into(), json!("ok"));
             m.insert("exact".into(), json!(exact as u8));
             m.insert("input".into(), json!(inp.iter().map(|x| *x as i64).collect::<Vec<_>>()));
-            m.insert("sumsq".into(), json!(res as i64));
+            // (a value beyond 32 bits cannot be read by TLC; the validator does not use it then)
+            m.insert("sumsq".into(), json!(if res < 2147483647.0 { res as i64 } else { -1 }));
             // bit-for-bit: a recovered zero must be +0.0 as in the plain definition
             m.insert("negzero".into(), json!(inp.iter().chain(pick.iter()).any(|x| *x == 0.0 && x.is_sign_negative()) as u8));
             m.insert("has_pick".into(), json!(grid_ok as u8));
